@@ -372,7 +372,9 @@ class ShardedScaleBase(CMCReadWrite, ABC):
     def fetch_cmc_chunk(self, cmc: np.uint64):
         shard_key = self.get_shard_key(cmc)
         shard = self.get_shard(shard_key)
-        assert shard.can_read_cmc
+        if not shard.can_read_cmc:
+            raise ShardedIOError(f"Cannot find the shard of chunk {cmc} "
+                                 f"in scale {self.key}")
         return shard.fetch_cmc_chunk(cmc)
 
     def fetch_chunk(self, chunk_coords):
